@@ -59,6 +59,7 @@ class RequiredNames(MutableSet[str]):
     def add(self, name: str) -> None:  # noqa: D102
         self.__grammar._check_name(name)
         self.__names.add(name)
+        self.__grammar._handle_required_names_change()
 
     def __contains__(self, name: Any) -> bool:
         return name in self.__names
@@ -85,6 +86,7 @@ class RequiredNames(MutableSet[str]):
 
     def discard(self, name: str) -> None:  # noqa: D102
         self.__names.discard(name)
+        self.__grammar._handle_required_names_change()
 
     def __str__(self) -> str:
         return str(self.__names)
